@@ -5,6 +5,7 @@ package implementation
 import (
 	"math/big"
 
+	"github.com/zenon-network/go-zenon/chain/nom"
 	"github.com/zenon-network/go-zenon/consensus/api"
 	"github.com/zenon-network/go-zenon/vm/embedded/definition"
 	"github.com/zenon-network/go-zenon/vm/vm_context"
@@ -62,4 +63,10 @@ func VerifUpdateLiquidityRewards(context vm_context.AccountVmContext) (int, erro
 func VerifUpdateLiquidityStakeRewards(context vm_context.AccountVmContext) (int, error) {
 	blocks, err := updateLiquidityStakeRewards(context)
 	return len(blocks), err
+}
+
+// VerifComputeLiquidityStakeRewardsForEpoch returns the descendant blocks (burns of the additional reward, mints to
+// the liquidity contract) of computeLiquidityStakeRewardsForEpoch; the credits are in the context's storage.
+func VerifComputeLiquidityStakeRewardsForEpoch(context vm_context.AccountVmContext, epoch uint64) ([]*nom.AccountBlock, error) {
+	return computeLiquidityStakeRewardsForEpoch(context, epoch)
 }
